@@ -399,7 +399,7 @@ pub fn run_batch<S: Scenario>(scn: &Arc<S>, cfg: &CheckCfg, tag: &str, budget: D
                         for (k, v) in &out.probes {
                             *stats.probes.entry(k.to_string()).or_insert(0) += v;
                         }
-                        if stats.samples.len() < 1 && out.switches > 2 {
+                        if stats.samples.len() < 1 && (out.switches > 2 || (scn.engine() != "T" && scn.nontrivial(&p, &out))) {
                             stats.samples.push(json!({
                                 "run_index": idx,
                                 "params": serde_json::to_value(&p).unwrap_or(Value::Null),
